@@ -234,7 +234,7 @@ class Task:
             self.response_headers.append(("Content-Length", content_length_header))
 
         if version == "1.0":
-            if connection == "keep-alive":
+            if connection == "keep-alive" and not self.close_on_finish:
                 if not content_length_header:
                     self.set_close_on_finish()
                 else:
